@@ -104,6 +104,22 @@ type c18State struct {
 
 // observe classifies one execution and applies both oracles.
 func (s *c18State) observe(template string, class string, out GenOut, rp map[string]interface{}, glyphs bool) {
+	if out.Raw != nil {
+		// what the caller does next with the password is library code too:
+		// rendering, the token index and its decoding must stay silent
+		func() {
+			defer func() { recover() }()
+			p := out.Raw
+			_ = p.String()
+			_ = p.Tokens().Atoms()
+			_ = p.Tokens().Separators()
+			_ = p.Tokens().Kind()
+			idx, err := p.Tokens().MakeIndices()
+			if err == nil {
+				spg.Tokenize(p.String(), idx, p.Entropy)
+			}
+		}()
+	}
 	text := s.cap.take()
 	s.c.Count("executions", 1)
 	if glyphs {
@@ -272,7 +288,9 @@ func c18Run(c *core.Ctx) {
 	wlT := []WLCase{}
 	for _, ws := range [][]string{{"ab", "cd"}, {"ab", "cd", "abd"}, {"ab", "ab", "cd"}, {"a", "b", "c", "d", "a", "a"},
 		// words starting with letters whose case mapping is unusual (dotless i, long s, sharp s, a digraph)
-		{"ıab", "ſcd"}, {"ßab", "ǆcd", "ıd"}} {
+		{"ıab", "ſcd"}, {"ßab", "ǆcd", "ıd"},
+		// a word too long for the token index (its error path)
+		{strings.Repeat("ab", 150), "cd"}} {
 		wls := []int{1, 2}
 		if c.Thorough() {
 			wls = []int{1, 2, 3}
@@ -280,7 +298,13 @@ func c18Run(c *core.Ctx) {
 		for _, L := range wls {
 			for _, cpz := range wlSchemes {
 				for _, sp := range []Sep{{Kind: "none"}, {Kind: "char", Char: "d"}, {Kind: "sf", Recipe: &ref.CharRecipe{Length: 1, AllowChars: "cd"}},
-					{Kind: "sf", Recipe: &ref.CharRecipe{Length: 0, AllowChars: "cd"}}, {Kind: "sf", Recipe: &ref.CharRecipe{Length: 2, AllowChars: "c", RequireSets: []string{"d"}}}} {
+					{Kind: "sf", Recipe: &ref.CharRecipe{Length: 0, AllowChars: "cd"}}, {Kind: "sf", Recipe: &ref.CharRecipe{Length: 2, AllowChars: "c", RequireSets: []string{"d"}}},
+					// caller-written separator functions that claim an unusual entropy
+					{Kind: "customEnt", Char: "d", Ent: "NaN"}, {Kind: "customEnt", Char: "c", Ent: "-Inf"}, {Kind: "customEnt", Char: "dc", Ent: "+Inf"}, {Kind: "customEnt", Char: "d", Ent: "-1000"},
+					{Kind: "customEnt", Char: strings.Repeat("d", 300), Ent: "1"}} {
+					if sp.Kind == "customEnt" && (cpz == "first" || cpz == "all") {
+						continue
+					}
 					wlT = append(wlT, WLCase{Words: ws, Length: L, Cap: cpz, Sep: sp})
 				}
 			}
